@@ -221,6 +221,56 @@ def build_coq(clean=False):
         return rc, out
 
 
+def import_closure(relv):
+    """theories-relative .v files that theories/<relv> transitively imports from this project (text scan of
+    `From Batchie Require ...` / `Require ... Batchie.X.Y`); used only to say WHICH refused translation a
+    broken obligation goes back to - what actually fails is decided by coqc, not by this scan."""
+    seen, todo = set(), [relv]
+    while todo:
+        r = todo.pop()
+        if r in seen:
+            continue
+        seen.add(r)
+        path = os.path.join(COQ, "theories", r)
+        if not os.path.exists(path):
+            continue
+        code = strip_coq_comments(open(path).read())
+        for m in re.finditer(r"(?:From\s+Batchie\s+)?Require\s+(?:Import|Export)?\s*([^.]*(?:\.[A-Za-z][^.]*)*)\.(?:\s|$)", code):
+            for w in m.group(1).split():
+                w = w[len("Batchie."):] if w.startswith("Batchie.") else w
+                parts = w.split(".")
+                if len(parts) == 2 and os.path.exists(os.path.join(COQ, "theories", parts[0], parts[1] + ".v")):
+                    todo.append("%s/%s.v" % (parts[0], parts[1]))
+    return seen
+
+
+def refusals_for(pid):
+    """refused pieces of this run's regeneration that Props/<pid>.v depends on: {generated file: reason}"""
+    try:
+        refused = json.load(open(os.path.join(COQ, "theories", "Generated", "REFUSED.json")))
+    except Exception:  # noqa: BLE001
+        return {}
+    if not refused:
+        return {}
+    clo = import_closure("Props/%s.v" % pid) | import_closure("Run/Run%s.v" % pid)
+    texts = None
+    res = {}
+    for k, v in refused.items():
+        fn, _, name = k.partition(":")
+        if "Generated/" + fn not in clo:
+            continue
+        if not name:
+            res[k] = v
+            continue
+        if texts is None:
+            texts = [open(os.path.join(COQ, "theories", f)).read() for f in clo if not f.startswith("Generated/")
+                     and os.path.exists(os.path.join(COQ, "theories", f))]
+        pat = re.compile(r"(?<![A-Za-z0-9_'])" + re.escape(name) + r"(?![A-Za-z0-9_'])")
+        if any(pat.search(t) for t in texts):
+            res[k] = v
+    return res
+
+
 def build_driver(pid):
     with BuildLock():
         rc, out = sh(["./driver/build.sh", pid.lower()], 400, cwd=VERIF)
@@ -675,8 +725,12 @@ def main_check(mod, argv):
             p = write_replay(pid, dict(kind="extra-check", theorem_or_check=name, case=None, detail=detail, seed=seed))
             violations.append((p, " no-failing-input-found"))
     if not proof_ok:
+        refused = refusals_for(pid)
+        what = "Props/%s.v theorem %s" % (pid, proof.get("failed_theorem"))
+        if refused:
+            what += "; source no longer translatable: " + "; ".join("Generated/%s: %s" % kv for kv in sorted(refused.items()))
         p = write_replay(pid, dict(kind="broken-obligation", case=None,
-                                   theorem_or_check="Props/%s.v theorem %s" % (pid, proof.get("failed_theorem")),
+                                   theorem_or_check=what, translation_refused=refused,
                                    hygiene=bad, coqc_output=proof.get("output", "")[-3000:], make_output=build_out[-3000:], seed=seed))
         violations.append((p, "" if pred_fail and violations else " no-failing-input-found"))
 
